@@ -53,6 +53,7 @@ class Ctx:
         self.explanation = ''
         self.assumptions: List[str] = []
         self.extra: Dict[str, Any] = {}
+        self.undecided: List[Finding] = []
 
     # -- obligations ---------------------------------------------------
     def ob(self, rule: str, construct: str, ok: bool, message: str = '',
@@ -62,8 +63,21 @@ class Ctx:
         self.rule_instances[rule] = self.rule_instances.get(rule, 0) + 1
         if nontrivial:
             self.constructs.add((rule, construct))
+        from . import absint
+        pend, absint.PENDING = absint.PENDING, None
         if ok:
             self.discharged += 1
+        elif pend is not None and getattr(pend, 'undecided', None) and \
+                not os.environ.get('VERIF_NO_UNDECIDED'):
+            # the function now decides the matter through tests the
+            # assumed conditions do not name: neither held nor violated
+            self.undecided.append(Finding(
+                rule, construct, message + ' -- UNDECIDED: the open paths '
+                'still branch on ' + '; '.join(
+                    repr(u) for u in pend.undecided[:4]) +
+                ', which the assumed conditions do not determine', loc,
+                detail))
+            ok = None
         else:
             self.findings.append(Finding(rule, construct, message, loc,
                                          detail))
@@ -153,6 +167,7 @@ def finish(ctx: Ctx, t0: float, seed: int) -> int:
         'not_decided': ctx.not_decided,
         'known_findings': [f.to_json() for f, _ in listed],
         'unlisted_findings': [f.to_json() for f in unlisted],
+        'undecided': [f.to_json() for f in ctx.undecided],
         'exhaustive': True,
     }
     coverage.update(ctx.extra)
@@ -184,6 +199,11 @@ def finish(ctx: Ctx, t0: float, seed: int) -> int:
                   f'construct={x.construct} at {x.loc}: {x.message}')
         print(f'VIOLATION property={ctx.prop} replay={viol_path}')
         return 1
+    if ctx.undecided:
+        for x in ctx.undecided:
+            print(f'ANALYSIS-ERROR property={ctx.prop} rule={x.rule} '
+                  f'construct={x.construct} at {x.loc}: {x.message}')
+        return 2
     if vacuous:
         for r in vacuous:
             print(f'ANALYSIS-ERROR property={ctx.prop} rule={r} matched '
